@@ -1,4 +1,5 @@
 import TantivyModel.Proofs.GrammarCharsPrintList
+import TantivyModel.Proofs.GrammarCharsPhrase
 namespace TantivyModel.Grammar.Chars
 open TantivyModel.Grammar
 
@@ -79,16 +80,18 @@ theorem goodOpd_group (g : Bool) (lead : Nat) (occ : Option Occur) (o : Opd) (mo
     simp only [groupOpd, printList, List.length_cons, List.length_append, List.length_nil] at h2 ⊢
     omega
 
-/-- the well-formed fragment: plain words, and parenthesised lists of well-formed operands with
+/-- the well-formed fragment: plain words, double-quoted phrases without escapes, and parenthesised lists of well-formed operands with
     markers, AND/OR and any layout -/
 inductive WFOpd : Opd → Prop where
   | word (w : Str) (hw : PlainWord w) : WFOpd (wordOpd w)
+  | phrase (body : Str) (hb : PhraseBody body) : WFOpd (phraseOpd body)
   | group (lead : Nat) (occ : Option Occur) (o : Opd) (more : List PItem) (k : Nat)
       (ho : WFOpd o) (hm : ∀ it ∈ more, WFOpd it.opd) : WFOpd (groupOpd lead occ o more k)
 
 theorem wf_good (g : Bool) (o : Opd) (h : WFOpd o) : GoodOpd g o := by
   induction h with
   | word w hw => exact goodOpd_word g w hw
+  | phrase body hb => exact goodOpd_phrase g body hb
   | group lead occ o more k _ _ iho ihm => exact goodOpd_group g lead occ o more k iho ihm
 
 /-- the whole strict parser on a printed operand list of well-formed operands -/
